@@ -45,8 +45,8 @@ func EvalConstraints(cfg map[string]*MLeaf) []Violation {
 			out = append(out, Violation{"length", l.Key(), "descr length not in 1..8", ""})
 		}
 	}
-	if l, ok := get("/sys/code"); ok && !reCode.MatchString(l.Lex) {
-		out = append(out, Violation{"pattern", l.Key(), "code does not match [a-z]+[0-9]*", ""})
+	if l, ok := get("/sys/code"); ok && (!reCode.MatchString(l.Lex) || strings.HasPrefix(l.Lex, "z")) {
+		out = append(out, Violation{"pattern", l.Key(), "code does not match both patterns [a-z]+[0-9]* and [^z].*", ""})
 	}
 	// mandatory: every cons/ml entry needs req
 	entries := map[string]bool{}
